@@ -342,7 +342,7 @@ move_thdir_to_final(const char *thdir, const char *thdir_final)
 
 	struct dirent *dirent;
 	const char *prefix = "stream.";
-	while ((dirent = readdir(dir)) != NULL) {
+	while ((errno = 0, dirent = readdir(dir)) != NULL) {
 		/* It should only contain stream.* directories, skip others */
 		if (strncmp(dirent->d_name, prefix, strlen(prefix)) != 0)
 			continue;
@@ -375,6 +375,12 @@ move_thdir_to_final(const char *thdir, const char *thdir_final)
 
 		if (move_thread_to_final(thread, thread_final) != 0)
 			ret = 1;
+	}
+
+	/* A NULL with errno set is an error, not the end of the directory */
+	if (errno != 0) {
+		err("readdir %s failed:", thdir);
+		ret = 1;
 	}
 
 	/* Move the metadata only after the events are in the final
